@@ -31,6 +31,7 @@ TOL_SI = 1e-6          # statement: "saturation index equal to the requested tar
 TOL_SITE = 1e-8        # statement: "sum of occupied equivalents = defined sites, 1e-8" (relative)
 TOL_FRAC = 1e-8        # mole fractions sum to one: same tolerance as the other balance clause
 TOL_ACT = 1e-6         # ideal component: log10 activity (= SI) vs log10 mole fraction; the statement gives no number, the SI tolerance is used
+SEED_MOLES = 1e-10    # implementation constant: amount of an element the program moves from a mineral into a solution that lacks the element (used only to name one failure mechanism)
 UNDEF_SI = -99.0       # SI() reports -99.99 when the ion activity product cannot be formed
 
 
@@ -213,8 +214,9 @@ class RowJudge:
         raise RuntimeError("unknown restriction %r" % (restr,))
 
     # ------------------------------------------------------------------ exchangers and surfaces
-    def sites(self, row, master, expected, kind, what):
-        """expected: defined moles of sites.  kind: 'ex' | 'surf'."""
+    def sites(self, row, master, expected, kind, what, tied_ratio=None):
+        """expected: defined moles of sites.  kind: 'ex' | 'surf'.  tied_ratio: sites per mole of the mineral the sites are
+        tied to (None for sites defined by a number)."""
         kgw = row.get("kgw")
         tot = row.get(bname("tot_", master))
         lst = row.get(bname("list_", master))
@@ -235,15 +237,26 @@ class RowJudge:
             nsp += 1
             if eq != 0.0 and abs(c * mol * kgw - eq) > 1e-9 * abs(eq):
                 self.diags.append("SYS listing of %s: %s holds %.17g eq but coef x MOL x kgw = %.17g" % (master, name, eq, c * mol * kgw))
-        fp = "%s site-balance master=%s definition=%s" % ("exchange" if kind == "ex" else "surface", master, what)
-        scale = max(abs(expected), abs(occ))
-        if scale == 0.0:
-            self.codes.append("S0")
+        kw = "exchange" if kind == "ex" else "surface"
+        if expected == 0.0:
+            # the mineral the sites are tied to has vanished: a relative measure does not exist, the absolute reading of the
+            # statement's 1e-8 is used (mol)
+            if abs(occ) > TOL_SITE:
+                self.bad("%s site-balance master=%s definition=%s vanished-mineral" % (kw, master, what),
+                         "the mineral the sites of %s are tied to has 0 mol but %.17g mol of sites are occupied" % (master, occ))
+                self.codes.append("S!")
+            else:
+                self.codes.append("S0")
             return
-        rel = abs(occ - expected) / scale
+        rel = abs(occ - expected) / max(abs(expected), abs(occ))
         if not rel <= TOL_SITE:
-            self.bad(fp, "sum of occupied sites of %s = %.17g mol over %d species, defined %.17g mol (relative difference %.3g, tolerance %g); SYS total %.17g" % (
-                master, occ, nsp, expected, rel, TOL_SITE, tot))
+            fp = "%s site-balance master=%s definition=%s" % (kw, master, what)
+            note = ""
+            if tied_ratio is not None and abs((occ - expected) - tied_ratio * SEED_MOLES) <= 1e-3 * tied_ratio * SEED_MOLES:
+                fp += " excess = sites per mole x 1e-10 mol"
+                note = " ; the excess %.6g mol is sites-per-mole (%g) x 1e-10 mol" % (occ - expected, tied_ratio)
+            self.bad(fp, "sum of occupied sites of %s = %.17g mol over %d species, defined %.17g mol (relative difference %.3g, tolerance %g); SYS total %.17g%s" % (
+                master, occ, nsp, expected, rel, TOL_SITE, tot, note))
             self.codes.append("S!")
         else:
             self.worst["site"] = max(self.worst["site"], rel)
